@@ -793,6 +793,29 @@ class Inliner:
         class V(ast.NodeTransformer):
             def visit_Call(self, n):
                 self.generic_visit(n)
+                # map(h, xs) with a one-expression helper: (h(x) for x in xs)
+                if isinstance(n.func, ast.Name) and n.func.id == "map" and \
+                        len(n.args) == 2 and not n.keywords and \
+                        isinstance(n.args[0], (ast.Name, ast.Attribute)):
+                    fake = ast.Call(func=n.args[0], args=[], keywords=[])
+                    r0 = me.resolve(fake, stack)
+                    if r0 is not None:
+                        h0 = r0[0]
+                        npar = len(h0.params) - (1 if h0.kind in ("method", "class") else 0)
+                        if npar == 1:
+                            var = me.fresh(h0.params[-1], set())
+                            me.counter += 1
+                            var = "%s_m%d" % (var, me.counter)
+                            fake.args = [ast.Name(id=var, ctx=ast.Load())]
+                            ast.copy_location(fake, n)
+                            ast.fix_missing_locations(fake)
+                            new = me.expand_expr(fake, h0, r0[1])
+                            if new is not None:
+                                ge = ast.GeneratorExp(
+                                    elt=new, generators=[ast.comprehension(
+                                        target=ast.Name(id=var, ctx=ast.Store()),
+                                        iter=n.args[1], ifs=[], is_async=0)])
+                                return ast.fix_missing_locations(ast.copy_location(ge, n))
                 r = me.resolve(n, stack)
                 if r is not None:
                     new = me.expand_expr(n, r[0], r[1])
